@@ -243,6 +243,7 @@ func (h *vfH) resolve(p string) (string, *vfMemFile) {
 
 func (h *vfH) Fileread(r *sftp.Request) (io.ReaderAt, error) {
 	c := h.record("Fileread", r)
+	h.park("Open", "Fileread "+r.Filepath)
 	if err := h.injected("Fileread", r); err != nil {
 		c.Err = err.Error()
 		return nil, err
@@ -263,6 +264,7 @@ func (h *vfH) Fileread(r *sftp.Request) (io.ReaderAt, error) {
 
 func (h *vfH) openForWrite(handler string, r *sftp.Request) (*vfHObj, error) {
 	c := h.record(handler, r)
+	h.park("Open", handler+" "+r.Filepath)
 	if err := h.injected(handler, r); err != nil {
 		c.Err = err.Error()
 		return nil, err
@@ -503,6 +505,9 @@ func (h *vfH) lstat(r *sftp.Request) (sftp.ListerAt, error)    { return h.list("
 
 func (h *vfH) list(handler string, r *sftp.Request) (sftp.ListerAt, error) {
 	c := h.record(handler, r)
+	if r.Method == "List" {
+		h.park("Open", handler+" List "+r.Filepath)
+	}
 	if err := h.injected(handler, r); err != nil {
 		c.Err = err.Error()
 		return nil, err
